@@ -175,27 +175,27 @@ theorem lookup_st (s : State) (i : Bool) (hw : WF s) :
 /-- the three outcomes of `Builder.Interface`, described abstractly -/
 theorem ifaceLookup_spec (s : State) (hw : WF s) :
     ∃ s0 c inner, ifaceLookup s = (s0, c, inner) ∧ s0.mks = s.mks ∧ s0.next = s.next ∧ s0.inst = s.inst ∧ s0.b.pkg = .p0 ∧
-      s0.b.fnC = s.b.fnC ∧ s0.b.xfC = s.b.xfC ∧ s0.b.stC = s.b.stC ∧ s0.b.ifC = some (c, inner) ∧ s0.ctxc c = false ∧
+      s0.b.fnC = s.b.fnC ∧ s0.b.xfC = s.b.xfC ∧ s0.b.stC = s.b.stC ∧ s0.b.xsC = s.b.xsC ∧ s0.b.ifC = some (c, inner) ∧ s0.ctxc c = false ∧
       liveOf s inner = live s .im ∧
       (∀ mid, inner = some mid → slot s .im = some mid ∧ (s.mks mid).ctx = some c) ∧
       (∀ c', c' ≠ c → s0.ctxc c' = s.ctxc c') := by
   unfold ifaceLookup
   cases hi : s.b.ifC with
   | none =>
-    refine ⟨_, _, _, rfl, rfl, rfl, rfl, rfl, rfl, rfl, rfl, rfl, by simp [reset2CurPkg, setPkg], ?_, by simp, ?_⟩
+    refine ⟨_, _, _, rfl, rfl, rfl, rfl, rfl, rfl, rfl, rfl, rfl, rfl, by simp [reset2CurPkg, setPkg], ?_, by simp, ?_⟩
     · simp [live, slot, hi, liveOf]
     · intro c' h; simp [reset2CurPkg, setPkg, upd, h]
   | some ci =>
     obtain ⟨c, inner⟩ := ci
     by_cases hc : s.ctxc c = true
     · simp only [hc, if_true]
-      refine ⟨_, _, _, rfl, rfl, rfl, rfl, rfl, rfl, rfl, rfl, rfl, by simp [reset2CurPkg, setPkg], ?_, by simp, ?_⟩
+      refine ⟨_, _, _, rfl, rfl, rfl, rfl, rfl, rfl, rfl, rfl, rfl, rfl, by simp [reset2CurPkg, setPkg], ?_, by simp, ?_⟩
       · simp only [live, slot, hi]
         rw [show liveOf s none = none from rfl, eq_comm, liveOf_none]
         intro mid hm; exact ((hw.if_ctx c inner hi) mid hm).2 hc
       · intro c' h; simp [reset2CurPkg, setPkg, upd, h]
     · simp only [hc]
-      refine ⟨_, _, _, rfl, rfl, rfl, rfl, rfl, rfl, rfl, rfl, hi, by simpa [reset2CurPkg, setPkg] using hc, ?_, ?_, fun _ _ => rfl⟩
+      refine ⟨_, _, _, rfl, rfl, rfl, rfl, rfl, rfl, rfl, rfl, rfl, hi, by simpa [reset2CurPkg, setPkg] using hc, ?_, ?_, fun _ _ => rfl⟩
       · simp [live, slot, hi]
       · intro mid hm; exact ⟨by simp [slot, hi, hm], ((hw.if_ctx c inner hi) mid hm).1⟩
 
@@ -203,7 +203,7 @@ theorem liveOf_congr {s s' : State} (h : s'.mks = s.mks) (c : Option Nat) : live
   unfold liveOf; rw [h]
 
 theorem lookup_im (s : State) (hw : WF s) : LookupOk s .im (lookup s .im).1 (lookup s .im).2 := by
-  obtain ⟨s0, c, inner, he, hmk, hnx, hinst, hpkg, hfn, hxf, hst, hif, hcc, hlive, hinner, hoth⟩ := ifaceLookup_spec s hw
+  obtain ⟨s0, c, inner, he, hmk, hnx, hinst, hpkg, hfn, hxf, hst, hxs, hif, hcc, hlive, hinner, hoth⟩ := ifaceLookup_spec s hw
   simp only [lookup, he]
   have hs0 : ∀ t', t' ≠ .im → slot s0 t' = slot s t' := by
     intro t' hne; cases t' <;> simp_all [slot]
@@ -254,6 +254,37 @@ theorem lookup_im (s : State) (hw : WF s) : LookupOk s .im (lookup s .im).1 (loo
         simp [hcc]
     · intro j hj; show upd s0.mks s0.next _ j = s.mks j; rw [upd_other _ _ _ _ hj, hmk]
 
+theorem slot_xs (s : State) (p : Pkg) : slot s (.xs p) = xsInner s p := by
+  simp only [slot, xsInner]
+
+theorem slot_exportStructLookup (s : State) (t' : Tgt) : slot (exportStructLookup s) t' = slot s t' := by
+  cases t' <;> simp [slot, exportStructLookup, reset2CurPkg, setPkg]
+  case xs q =>
+    by_cases h : q = s.b.pkg
+    · subst h; simp [upd, xsInner]
+    · simp [upd, h]
+
+theorem wf_exportStructLookup {s : State} (hw : WF s) : WF (exportStructLookup s) :=
+  ⟨fun t m h => hw.slot_lt t m (by simpa [slot_exportStructLookup] using h), fun t m h => hw.slot_tgt t m (by simpa [slot_exportStructLookup] using h),
+   fun t m h => hw.slot_ctx t m (by simpa [slot_exportStructLookup] using h), hw.if_ctx⟩
+
+theorem lookup_xs (s : State) (hw : WF s) :
+    LookupOk s (.xs s.b.pkg) (lookup s .xs).1 (lookup s .xs).2 := by
+  simp only [lookup]
+  cases hl : liveOf (exportStructLookup s) (xsInner s s.b.pkg) with
+  | some mid =>
+    refine ⟨wf_exportStructLookup hw, rfl, rfl, Or.inl ⟨?_, rfl, slot_exportStructLookup s⟩⟩
+    simp only [live, slot_xs]; exact hl
+  | none =>
+    simp only [alloc, exportStructLookup, reset2CurPkg, setPkg]
+    have hs : ∀ t', slot { s with mks := upd s.mks s.next ({ tgt := .xs s.b.pkg } : Mocker), next := s.next + 1, b := { s.b with xsC := upd (upd s.b.xsC s.b.pkg (some (xsInner s s.b.pkg))) s.b.pkg (some (some s.next)), pkg := .p0 } } t' = if t' = .xs s.b.pkg then some s.next else slot s t' := by
+      intro t'; cases t' <;> simp [slot, upd]
+      case xs q => by_cases h : q = s.b.pkg <;> simp [h]
+    refine ⟨wf_alloc s _ (.xs s.b.pkg) { tgt := .xs s.b.pkg } hw rfl rfl hs rfl (fun _ => rfl) ?_, rfl, rfl, Or.inr ⟨?_, rfl, ?_, by simp, by simp, by simp, hs⟩⟩
+    · exact if_ctx_keep s _ hw rfl rfl (fun j hj => upd_other _ _ _ _ (by omega))
+    · simp only [live, slot_xs]; exact hl
+    · intro j hj; exact upd_other _ _ _ _ hj
+
 theorem lookup_ok (s : State) (hd : Handle) (hw : WF s) :
     LookupOk s (tgtOf s.b.pkg hd) (lookup s hd).1 (lookup s hd).2 := by
   cases hd with
@@ -261,6 +292,7 @@ theorem lookup_ok (s : State) (hd : Handle) (hw : WF s) :
   | st i => exact lookup_st s i hw
   | im => exact lookup_im s hw
   | xf n => exact lookup_xf s n hw
+  | xs => exact lookup_xs s hw
 
 theorem slot_setM (s : State) (mid : Nat) (m : Mocker) (t : Tgt) : slot (setM s mid m) t = slot s t := by
   cases t <;> rfl
@@ -351,7 +383,7 @@ theorem mks_setInst_setM (s : State) (mid : Nat) (m : Mocker) (t : Tgt) (i : Ins
   simp [setInst, setM, upd]
 
 theorem applyCb_real {s : State} {mid : Nat} (k : Nat) (h : isPhantom (s.mks mid).tgt = false) :
-    applyCb fixed s mid k = (setInst (setM s mid { s.mks mid with guard := true, when := none }) (s.mks mid).tgt (.cb k), none) := by
+    applyCb fixed s mid k = (setInst (setM s mid { s.mks mid with guard := true, canceled := false, when := none }) (s.mks mid).tgt (.cb k), none) := by
   simp [applyCb, h, fixed]
 
 /-- `Apply` through the live mocker of a real target -/
@@ -364,11 +396,11 @@ theorem apply_sim {s : State} {a : Lww} {t : Tgt} {mid k : Nat} (hw : WF s) (hr 
   refine ⟨wf_setInst (wf_setM hw mid _ ?_ ?_ ?_) _ _, hr.pkg, fun t' => ?_, fun t' h => ?_⟩
   · rfl
   · rfl
-  · exact fun h => h
+  · intro h; rw [hcan] at h; cases h
   · by_cases e : t' = t
     · subst e
       unfold Rt
-      have : live (setInst (setM s mid { s.mks mid with guard := true, when := none }) t' (.cb k)) t' = some mid := by
+      have : live (setInst (setM s mid { s.mks mid with guard := true, canceled := false, when := none }) t' (.cb k)) t' = some mid := by
         rw [live_some]; exact ⟨hs, by simp [mks_setInst_setM, hcan]⟩
       simp only [this, mks_setInst_setM, inst_setInst_setM, if_true]
       simp
@@ -379,7 +411,7 @@ theorem apply_sim {s : State} {a : Lww} {t : Tgt} {mid k : Nat} (hw : WF s) (hr 
 theorem stubI_real {s : State} {mid : Nat} (st : Stub) (h : isPhantom (s.mks mid).tgt = false) :
     stubI s mid st = match (s.mks mid).when with
       | some w => (setM s mid { s.mks mid with when := some (w.step st) }, none)
-      | none => (setInst (setM s mid { s.mks mid with when := some (When.fresh st), guard := true }) (s.mks mid).tgt (.via mid), none) := by
+      | none => (setInst (setM s mid { s.mks mid with when := some (When.fresh st), guard := true, canceled := false }) (s.mks mid).tgt (.via mid), none) := by
   simp only [stubI, h, Bool.false_eq_true, if_false]
   cases (s.mks mid).when <;> rfl
 
@@ -420,11 +452,11 @@ theorem stub_sim {s : State} {a : Lww} {t : Tgt} {mid : Nat} (st : Stub) (hw : W
     refine ⟨wf_setInst (wf_setM hw mid _ ?_ ?_ ?_) _ _, hr.pkg, fun t' => ?_, hph _ (fun t' e => by simp [inst_setInst_setM, e])⟩
     · rfl
     · rfl
-    · exact fun h => h
+    · intro h; rw [hcan] at h; cases h
     · by_cases e : t' = t
       · subst e
         unfold Rt
-        have : live (setInst (setM s mid { s.mks mid with when := some (When.fresh st), guard := true }) t' (.via mid)) t' = some mid := by
+        have : live (setInst (setM s mid { s.mks mid with when := some (When.fresh st), guard := true, canceled := false }) t' (.via mid)) t' = some mid := by
           rw [live_some]; exact ⟨hs, by simp [mks_setInst_setM, hcan]⟩
         simp only [this]
         rcases hrt with ⟨_, hb⟩ | ⟨k, _, hb, _⟩ <;> simp [mks_setInst_setM, inst_setInst_setM, hb, Lww.instr]
@@ -589,18 +621,21 @@ theorem mem_cachedMids {s : State} {t : Tgt} {mid : Nat} (h : slot s t = some mi
   | st i => cases i <;> simp_all
   | im => simp_all
   | xf p n => cases p <;> cases n <;> simp_all [slot, allPkgs, allNames]
+  | xs p => cases p <;> simp_all
 
 theorem cachedMids_cached {s : State} {mid : Nat} (h : mid ∈ cachedMids s) : ∃ t, slot s t = some mid := by
   simp only [cachedMids, List.mem_filterMap, id] at h
   obtain ⟨o, ho, rfl⟩ := h
   simp only [List.mem_append, List.mem_cons, List.mem_flatMap, List.mem_map, allPkgs, allNames, List.not_mem_nil, or_false] at ho
-  rcases ho with ((h | h) | ⟨p, _, n, _, h⟩) | (h | h | h)
+  rcases ho with ((h | h) | ⟨p, _, n, _, h⟩) | (h | h | h | h | h)
   · exact ⟨.fn false, h.symm ▸ rfl⟩
   · exact ⟨.fn true, h.symm ▸ rfl⟩
   · exact ⟨.xf p n, h.symm ▸ rfl⟩
   · exact ⟨.st false, h.symm ▸ rfl⟩
   · exact ⟨.st true, h.symm ▸ rfl⟩
   · exact ⟨.im, h.symm ▸ rfl⟩
+  · exact ⟨.xs .p0, h.symm ▸ rfl⟩
+  · exact ⟨.xs .p1, h.symm ▸ rfl⟩
 
 /-- cancelling a list of cached mockers one after the other -/
 theorem fold_cancel (l : List Nat) : ∀ (s : State), WF s → (∀ m ∈ l, ∃ t, slot s t = some m) →
@@ -645,8 +680,9 @@ theorem fold_cancel (l : List Nat) : ∀ (s : State), WF s → (∀ m ∈ l, ∃
 
 /-- a change of the builder that leaves the function / struct / interface caches alone -/
 theorem wf_of_caches {s s2 : State} (hw : WF s) (hm : s2.mks = s.mks) (hn : s2.next = s.next) (hc : s2.ctxc = s.ctxc)
-    (h1 : s2.b.fnC = s.b.fnC) (h2 : s2.b.xfC = s.b.xfC) (h3 : s2.b.stC = s.b.stC) (h4 : s2.b.ifC = s.b.ifC) : WF s2 := by
-  have hs : ∀ x, slot s2 x = slot s x := by intro x; cases x <;> simp [slot, h1, h2, h3, h4]
+    (h1 : s2.b.fnC = s.b.fnC) (h2 : s2.b.xfC = s.b.xfC) (h3 : s2.b.stC = s.b.stC) (h4 : s2.b.ifC = s.b.ifC)
+    (h5 : s2.b.xsC = s.b.xsC) : WF s2 := by
+  have hs : ∀ x, slot s2 x = slot s x := by intro x; cases x <;> simp [slot, h1, h2, h3, h4, h5]
   exact ⟨fun t m h => by rw [hn]; exact hw.slot_lt t m (by rw [← hs]; exact h),
     fun t m h => by rw [hm]; exact hw.slot_tgt t m (by rw [← hs]; exact h),
     fun t m h e => by rw [hm]; exact hw.slot_ctx t m (by rw [← hs]; exact h) e,
@@ -654,8 +690,8 @@ theorem wf_of_caches {s s2 : State} (hw : WF s) (hm : s2.mks = s.mks) (hn : s2.n
 
 theorem r_of_caches {s s2 : State} {a a2 : Lww} (hr : R s a) (hm : s2.mks = s.mks) (hi : s2.inst = s.inst)
     (h1 : s2.b.fnC = s.b.fnC) (h2 : s2.b.xfC = s.b.xfC) (h3 : s2.b.stC = s.b.stC) (h4 : s2.b.ifC = s.b.ifC)
-    (hp : s2.b.pkg = a2.pkg) (hb : a2.beh = a.beh) : R s2 a2 := by
-  have hs : ∀ x, slot s2 x = slot s x := by intro x; cases x <;> simp [slot, h1, h2, h3, h4]
+    (h5 : s2.b.xsC = s.b.xsC) (hp : s2.b.pkg = a2.pkg) (hb : a2.beh = a.beh) : R s2 a2 := by
+  have hs : ∀ x, slot s2 x = slot s x := by intro x; cases x <;> simp [slot, h1, h2, h3, h4, h5]
   have hl : ∀ x, live s2 x = live s x := by intro x; simp only [live, hs]; exact liveOf_congr hm _
   exact ⟨hp, fun t => rt_congr (hl t) (fun _ _ => by rw [hm]) (by rw [hi]) (by rw [hb]) (hr.tgt t),
     fun t h => by rw [hi, hb]; exact hr.ph t h⟩
@@ -666,7 +702,7 @@ theorem reset_sim {s : State} {a : Lww} (hw : WF s) (hr : R s a) :
   generalize hsf : (cachedMids s).foldl cancelM s = sf at *
   have hwf : WF (resetB s) := by
     unfold resetB; simp only [hsf]
-    exact wf_of_caches h1 rfl rfl rfl rfl rfl rfl rfl
+    exact wf_of_caches h1 rfl rfl rfl rfl rfl rfl rfl rfl
   refine ⟨hwf, ?_⟩
   have hslot : ∀ x, slot (resetB s) x = slot s x := by
     intro x; unfold resetB; simp only [hsf]; cases x <;> simp [slot, h2]
@@ -701,11 +737,11 @@ theorem reset_sim {s : State} {a : Lww} (hw : WF s) (hr : R s a) :
 theorem step_sim {s : State} {a : Lww} (hw : WF s) (hr : R s a) (op : Op) :
     WF (step fixed s op).1 ∧ R (step fixed s op).1 (a.step op) := by
   cases op with
-  | pkg p => exact ⟨wf_setPkg hw p, r_of_caches hr rfl rfl rfl rfl rfl rfl rfl rfl⟩
+  | pkg p => exact ⟨wf_setPkg hw p, r_of_caches hr rfl rfl rfl rfl rfl rfl rfl rfl rfl⟩
   | reset => exact reset_sim hw hr
   | var =>
     simp only [step, varLookup, fixed, if_true, Lww.step]
-    refine ⟨wf_of_caches hw ?_ ?_ ?_ ?_ ?_ ?_ ?_, r_of_caches hr ?_ ?_ ?_ ?_ ?_ ?_ ?_ rfl⟩ <;>
+    refine ⟨wf_of_caches hw ?_ ?_ ?_ ?_ ?_ ?_ ?_ ?_, r_of_caches hr ?_ ?_ ?_ ?_ ?_ ?_ ?_ ?_ rfl⟩ <;>
       (split <;> rfl)
   | stBad =>
     refine ⟨wf_structLookup hw, ?_⟩
